@@ -42,6 +42,10 @@ def gen(tier, rng, scale):
             r = rng.below(100)
             base = rng.choice(interesting + starts + [rng.below(flen + 2)])
             off = min(2**64 - 1, max(0, base + rng.range(-4, 4)))
+            if r >= 96 and rng.chance(1, 2):
+                # the source fails its next read once (a transient I/O error): the call that meets it may fail, and nothing of it may be remembered
+                items.append(["X"])
+                continue
             if r < 8:
                 # read_bytes_into: appended to a destination that may already hold bytes (pdb::Source::view gathers several slices into one Vec)
                 size = rng.choice([0, 1, 8, 100, 4096, CH, CH + 1])
@@ -198,8 +202,14 @@ def evaluate(cases):
     terms = []
     for c, l in zip(cases, outl):
         res = l.split("|")[0].split()
+        # X calls, and the calls during which the source failed ("!"), take no part: a failed read leaves no trace, so every other call must
+        # answer as the specification (and the model, run on the remaining calls) says
+        keep = [(it, t) for it, t in zip(c["items"], res) if it[0] != "X" and not t.endswith("!")] if len(res) == len(c["items"]) else list(zip(c["items"], res))
+        st = _state.setdefault("source_failures", {"injected": 0, "calls_that_met_one": 0})
+        st["injected"] += sum(1 for it in c["items"] if it[0] == "X")
+        st["calls_that_met_one"] += sum(1 for t in res if t.endswith("!"))
         terms.append("(%d, %s, %s, %s, %s)" % (c["flen"], K.coq_list([str(z) for z in c["zs"]]), K.coq_list([str(z) for z in c["ts"]]),
-                                               K.coq_list([_coq_op(it) for it in c["items"]]), K.coq_list([_coq_obs(t) for t in res])))
+                                               K.coq_list([_coq_op(it) for it, _ in keep]), K.coq_list([_coq_obs(t) for _, t in keep])))
     shards = ["Definition cases : list (N * list N * list N * list op * list obs) := %s.\nEval vm_compute in (map verdict cases).\n" % K.coq_list(ch)
               for ch in K.chunked(terms, K.NCPU)]
     try:
@@ -225,12 +235,12 @@ def describe(case):
 
 
 def distribution(cases):
-    d = {"file_lens": {}, "calls": {"A": 0, "U": 0, "I": 0}, "empty_until": 0, "overflowing": 0, "oob": 0}
+    d = {"file_lens": {}, "calls": {"A": 0, "U": 0, "I": 0, "X": 0}, "empty_until": 0, "overflowing": 0, "oob": 0}
     for c in cases:
         d["file_lens"][str(c["flen"])] = d["file_lens"].get(str(c["flen"]), 0) + 1
         for it in c["items"]:
             d["calls"][it[0]] += 1
-            if c.get("mt"):
+            if c.get("mt") or it[0] == "X":
                 continue
             if it[0] == "U" and it[1] == it[2]:
                 d["empty_until"] += 1
@@ -239,6 +249,7 @@ def distribution(cases):
             elif it[0] == "A" and it[1] + it[2] > c["flen"]:
                 d["oob"] += 1
     d["multi_threaded"] = _state.get("mt", {})
+    d["source_failures"] = _state.get("source_failures", {})
     return d
 
 
